@@ -41,12 +41,52 @@ CONSTANTS MaxPre, MaxN, PreAlphabet, Accs, Posts, FlowKinds, Drivers, Bufs,
                        \* are fill chains that raise LenaStopFill at the values with index SibStop = 1 and 2
           StopFlag,    \* "per_branch": LenaStopFill of one branch concerns that branch only (documented);
                        \* "per_buffer": the flag is kept for the later branches of the block (must be rejected)
-          CopyMode     \* "per_branch": every branch but the last gets its own deep copy of the block (documented);
+          CopyMode,    \* "per_branch": every branch but the last gets its own deep copy of the block (documented);
                        \* "shared": one copy handed to all branches but the last (must be rejected)
+          AdapterHides, \* TRUE: an explicit adapter (Call, FillCompute) presents its own interface only (documented);
+                       \* FALSE: it lets the other public methods of the wrapped element through (must be rejected)
+          VarCopy      \* "per_value": a Variable gives every value its own copy of its description (documented);
+                       \* "per_flow": its run side hands the nested parts of one copy to all values of a flow, so
+                       \* that a compose list grows with every value that passes a later Variable (must be rejected)
+
+AT == INSTANCE AdapterTable
 
 (***************************************************************************)
 (* Chains and the machine.                                                 *)
 (***************************************************************************)
+\* ---- variables: typed, untyped, composed
+Vmm == VarD("mm", "length", "dbl")
+Vsq == VarD("sq", "area", "inc")
+Vhalf == VarD("half", "fraction", "dbl")
+Vid == VarD("ident", "", "id")
+Vlen2 == VarD("cm", "length", "inc")              \* a second variable of the type length
+Vars1 == {TVar(<<Vmm>>), TVar(<<Vhalf>>), TVar(<<Vid>>)}
+Composes == {TVar(<<Vmm, Vsq>>), TVar(<<Vsq, Vid>>), TVar(<<Vmm, Vsq, Vhalf>>), TVar(<<Vid, Vsq>>), TVar(<<Vsq, Vlen2>>)}
+\* ---- elements with conflicting interfaces behind an explicit adapter.  How a driver binds the adapter object
+\* follows from the decision tables applied to what the adapter object exposes.
+AmbCaps == [run |-> "meth", fill |-> "meth", compute |-> "meth", request |-> "meth", fill_into |-> "meth", m |-> "meth",
+            call |-> TRUE, iter |-> FALSE, cbf |-> FALSE, truth |-> TRUE]
+CountCaps == [AT!NoCaps EXCEPT !.run = "meth", !.fill = "meth", !.compute = "meth", !.fill_into = "meth"]
+SumCaps == [AT!NoCaps EXCEPT !.fill = "meth", !.compute = "meth"]
+AccCaps(a) == CASE a = "fc_count" -> CountCaps [] a = "fc_sum" -> SumCaps [] OTHER -> AmbCaps
+Seen(adapter, caps) == AT!Exposed(adapter, caps, AdapterHides)
+WMap(f, w) == WMapB(f, w, AT!Decide("Run", Seen("Call", AmbCaps), "default").bind,
+                          AT!Decide("FillInto", Seen("Call", AmbCaps), "default").bind)
+\* Sequence turns the accumulator into a Run element
+AccRunBind(a) == IF a \in Wrapped THEN AT!Decide("Run", Seen("FillCompute", AccCaps(a)), "default").bind
+                 ELSE "fill_then_compute"
+AlphaVars == {TVar(<<Vhalf>>), TVar(<<Vmm, Vsq>>), TVar(<<Vsq, Vid>>), Map("var"), WMap("inc", "m"), Slice(1, None, 1)}
+AlphaVarsWide == AlphaVars \cup Vars1 \cup Composes \cup {WMap("dbl", "call"), CFilter("variable", "str"), RunIfDup("variable")}
+PostsVars == {<<>>, <<TVar(<<Vhalf>>)>>, <<WMap("inc", "call")>>}
+PostsVarsWide == PostsVars \cup {<<TVar(<<Vsq, Vid>>), Sum>>}
+AccsVars == {"store1", "fc_count", "fc_named"}
+AccsVarsWide == {"store1"} \cup Wrapped
+BufTwo == {1, None}
+BufThree == {1, 2, None}
+AlphaGuard == {TVar(<<Vmm, Vsq>>), TVar(<<Vhalf>>)}       \* smallest alphabets for the variants that must be rejected
+AccsGuard == {"store1", "fc_count"}
+PostsGuard == {<<>>, <<WMap("inc", "call")>>}
+
 \* RunIf around flow-dependent inner sequences: all but the first value / the first value / reversed / all but the
 \* last / a callable and then the first value - of the one-value flow
 SkipFirst == <<Slice(1, None, 1)>>
@@ -61,12 +101,12 @@ AlphaQuick == CtxSel \cup {Map("tag"), Map("inc"), Map("var"), Filter("even"), F
                Slice(0, 0, 1), RunIf("even", "inc"), RunIf("lt2", "drop")}
 AlphaMid == AlphaQuick \cup {Map("dbl"), Map("tag"), Filter("lt2"), Slice(2, 3, 1), Slice(0, 3, 2), Slice(3, None, 1),
                              RunIf("all", "dbl")}
-AlphaFull == AlphaMid \cup AllSlices \cup InnerSeqs \cup Composed \cup {NMap("none_odd"), NMap("none_all"), NMap("zero_odd"), VarAttr("all"), RunIfDup("odd"), RunIfDup("variable"), VarAttr("run"), VarAttr("fill"), VarAttr("compute"), VarAttr("request"),
+AlphaFull == AlphaMid \cup AllSlices \cup InnerSeqs \cup Composed \cup Vars1 \cup Composes \cup {WMap("inc", "call"), WMap("dbl", "m"), NMap("none_odd"), NMap("none_all"), NMap("zero_odd"), VarAttr("all"), RunIfDup("odd"), RunIfDup("variable"), VarAttr("run"), VarAttr("fill"), VarAttr("compute"), VarAttr("request"),
               VarAttr("fill_into"), Map("upd"), Filter("all"), RunIf("even", "drop")}
 AlphaSmall == {Map("inc"), VarAttr("all"), SFilter("not_even"), Slice(0, 2, 1), Slice(1, 3, 2), RunIfSeq("lt2", SkipFirst),
                CFilter("odd", "str"), SFilter("not_roe"), RunIfDup("odd"), NMap("none_odd")}
 AlphaThorough == AlphaSmall \cup {Filter("even"), CFilter("variable", "fn"), NMap("zero_odd"), SFilter("and_not"), RunIf("lt2", "drop"), RunIfSeq("all", <<Slice(0, 1, 1)>>), CRunIf("odd", "inc"), Map("var"), VarAttr("fill"), Map("tag"), CFilter("t", "str")}
-AlphaDeep == {Map("inc"), Map("var"), Filter("even"), Slice(0, 2, 1), RunIfSeq("all", <<Slice(0, 1, 1)>>), CFilter("odd", "str"), RunIfDup("odd")}
+AlphaDeep == {TVar(<<Vmm, Vsq>>), Map("inc"), Map("var"), Filter("even"), Slice(0, 2, 1), RunIfSeq("all", <<Slice(0, 1, 1)>>), CFilter("odd", "str"), RunIfDup("odd")}
 PostsSmall == {<<>>, <<Map("inc")>>, <<Sum>>}
 AccsSmall == {"sum", "store1"}
 BufQuick == {1, 2, 3, 1000, None}
@@ -74,7 +114,7 @@ BufOne == {2}
 PostsQuick == {<<>>, <<Map("inc")>>, <<Filter("even")>>, <<Sum>>}
 PostsMid == PostsQuick \cup {<<Map("var"), Slice(0, 1, 1)>>, <<Count>>}
 AccsQuick == {"sum", "store1", "last", "sumrun"}
-AccsAll == {"sum", "store1", "last", "cnt", "sumrun"}
+AccsAll == {"sum", "store1", "last", "cnt", "sumrun", "fc_count"}
 
 RECURSIVE Pres(_)
 Pres(n) == IF n = 0 THEN {<<>>}
@@ -103,16 +143,25 @@ Init == /\ ch \in Chains /\ N \in 0..MaxN /\ fk \in FlowKinds /\ drv \in Drivers
         /\ act = "Init"
 
 Scenario == UNCHANGED <<ch, N, fk, drv, bs, place>>
-Results == Sem2(ch.post, AccCompute(ch.acc, aloc))
+\* the post elements form a Sequence whatever the driver
+Results == SemOp(ch.post, AccCompute(ch.acc, aloc))
+\* VarCopy = "per_flow": the value that is the (k+1)-th to pass a Variable behind a composed one finds the shared
+\* compose list already extended k times
+Stale(v, k) == IF VarCopy = "per_flow" /\ Len(VcOf(v).compose) >= 3
+               THEN LET cmp == v.vc.compose IN [v EXCEPT !.vc.compose = cmp \o [j \in 1..k |-> cmp[Len(cmp)]]]
+               ELSE v
 
 \* ---- Sequence.run
 RunFeed == /\ act' = "RunFeed" /\ drv = "run" /\ phase = "feed" /\ pos < N
-           /\ LET r == FeedVals(ch.pre, locs, 1, <<xs[pos + 1]>>) IN
-              /\ locs' = r.locs /\ aloc' = AccFillAll(ch.acc, aloc, r.reach) /\ reach' = reach \o r.reach
+           /\ LET r == FeedVals(ch.pre, locs, 1, <<xs[pos + 1]>>)
+                  got == [j \in 1..Len(r.reach) |-> Stale(r.reach[j], pos)] IN
+              /\ locs' = r.locs /\ aloc' = AccFillAll(ch.acc, aloc, got) /\ reach' = reach \o got
            /\ pos' = pos + 1
            /\ Scenario /\ UNCHANGED <<buf, active, stopped, out, computes, stopAt, phase>>
+\* Run(acc): fill ... compute, unless the object handed to Sequence shows a run method of its own
 RunEof == /\ act' = "RunEof" /\ drv = "run" /\ phase = "feed" /\ pos = N
-          /\ out' = Results /\ computes' = computes + 1 /\ phase' = "done"
+          /\ out' = (IF AccRunBind(ch.acc) = "fill_then_compute" THEN Results ELSE SemOp(ch.post, AccOwnRun(ch.acc, reach)))
+          /\ computes' = computes + 1 /\ phase' = "done"
           /\ Scenario /\ UNCHANGED <<pos, locs, aloc, buf, active, stopped, reach, stopAt>>
 
 \* ---- FillComputeSeq / FillSeq filled value by value
@@ -136,7 +185,7 @@ PersistValue == /\ act' = "PersistValue" /\ drv = "persist" /\ phase = "feed" /\
 PersistCompute == /\ act' = "PersistCompute" /\ drv = "persist" /\ phase = "feed" /\ pos = N
                   /\ out' = Results /\ computes' = computes + 1 /\ phase' = "done"
                   /\ Scenario /\ UNCHANGED <<pos, locs, aloc, buf, active, stopped, reach, stopAt>>
-ComputeAgain == /\ act' = "ComputeAgain" /\ drv = "persist" /\ phase = "done" /\ Stateless(ch.post)
+ComputeAgain == /\ act' = "ComputeAgain" /\ drv = "persist" /\ phase = "done" /\ Recomputable(ch)
                 /\ out' = Results /\ phase' = "done2"
                 /\ Scenario /\ UNCHANGED <<pos, locs, aloc, buf, active, stopped, reach, computes, stopAt>>
 
@@ -170,7 +219,7 @@ SplitFill == /\ act' = "SplitFill" /\ drv = "split" /\ phase = "fill"
                      /\ locs' = r.locs /\ aloc' = a2 /\ reach' = reach \o r.reach
                      /\ stopped' = r.stop /\ active' = ~gone
                      /\ stopAt' = (IF r.stop THEN pos - Len(buf) + r.n ELSE None)
-                     /\ IF gone THEN /\ out' = Sem2(ch.post, AccCompute(ch.acc, a2)) /\ computes' = computes + 1
+                     /\ IF gone THEN /\ out' = SemOp(ch.post, AccCompute(ch.acc, a2)) /\ computes' = computes + 1
                         ELSE UNCHANGED <<out, computes>>
              /\ phase' = "read"
              /\ Scenario /\ UNCHANGED <<pos, buf>>
@@ -199,6 +248,12 @@ StopSound == stopped => reach = Reach(ch, xs)
 ComputeOnce == /\ computes <= 1
                /\ Done => computes = 1
                /\ (drv = "split" /\ stopped) => computes = 1
+\* a Compose is its variables one after the other (first pre element split into single variables)
+Unfold(vs) == [j \in 1..Len(vs) |-> TVar(<<vs[j]>>)]
+ComposeAsSequence == (Done /\ ch.pre # <<>> /\ ch.pre[1].t = "tvar") =>
+     out = ChainSem([ch EXCEPT !.pre = Unfold(ch.pre[1].vars) \o Tail(ch.pre)], xs)
+\* an adapter object shows the interface of its kind, whatever the wrapped element has
+AdaptersHide == \A a \in AT!Adapters : \A c \in {AmbCaps, CountCaps, SumCaps, AT!NoCaps} : Seen(a, c) = AT!Interface(a)
 \* Split holds at most one block
 BufBound == bs # None => Len(buf) <= bs
 
